@@ -259,8 +259,8 @@ def prune_blocks(rep):
 # ------------------------------------------------------------------ O15.3
 ALLOWED_EXTERNAL = {
     # (module, function): guard that must enclose the write
-    (CV, "bipartite_to_hypergraph"): "s_label in H.species",
-    (CV, "species_graph_to_hypergraph"): "s_label in H.species",
+    (CV, "bipartite_to_hypergraph"): "<key> in <graph>.species",
+    (CV, "species_graph_to_hypergraph"): "<key> in <graph>.species",
 }
 
 
@@ -295,9 +295,11 @@ def who_may_write(rep):
             allowed = ALLOWED_EXTERNAL.get((fi.rel, fi.qual))
             ok = False
             if allowed and target[0] == "species_to_mol":
-                gs = [norm(t) for t, s in guards_of(pm, target[1], fi.node) if s]
-                ok = allowed in gs
-            rep.ob("O15.3", "R6c", fi, ok, target[1], f"only CRNHyperGraph methods write `{target[0]}`"
+                # <h>.species_to_mol[<k>] = ...  must sit under  `<k> in <h>.species`
+                wm = pmatch("$h.species_to_mol[$k] = $$v", target[1])
+                gs = [t for t, s in guards_of(pm, target[1], fi.node) if s]
+                ok = wm is not None and any(pmatch(f"{wm['k']} in {wm['h']}.species", t) is not None for t in gs)
+            rep.ob("O15.3", "R6c", fi, ok, alpha(target[1], fi.node), f"only CRNHyperGraph methods write `{target[0]}`"
                    + (f" (enumerated exception: must stay guarded by `{allowed}`)" if allowed else ""), node=target[1])
     rep.need("R6c", n_sites, 2, "external writes to the indices (the two enumerated exceptions)")
     rep.extra["who_may_write_functions_scanned"] = sum(1 for _ in rep.repo.all_funcs())
